@@ -4,7 +4,7 @@
 From Coq Require Import QArith Qcanon List Arith.
 From Verif.lib Require Import Bsp.
 From Verif.C02 Require Import Proofs.
-From Verif.C05 Require Import Model Proofs Hier HierEx.
+From Verif.C05 Require Import Model Proofs Hier HierEx HierThb HierReach.
 Import ListNotations.
 Open Scope Qc_scope.
 
@@ -172,10 +172,23 @@ Theorem levelwise_eval_eq_fine_thb_partial : forall (X : Type) n (B : nat -> nat
     = bigsum (n T) (fun J => fine_coeff n P (fun lv j => Nat.eqb lv T && actT j) T u J * B T J x).
 Proof. exact @levelwise_thb2_l. Qed.
 Print Assumptions levelwise_eval_eq_fine_thb_partial.
-(* NOT PROVED: levelwise_eval_eq_fine_thb for more than two coefficient-carrying levels
-   (thb_to_hb = T_{L-2} ... T_0 against the level-by-level zeroing of represent_fine); missing: the
-   induction over levels showing that zeroing only the ACTIVE rows level by level composes to the
-   product of the truncate_one_level matrices. *)
+(* THB, ANY number of levels, any dimension.  t2h = thb_to_hb applied to the coefficient arrays
+   (truncate_one_level(T-1) @ ... @ truncate_one_level(0), each I - A changing only level k+1);
+   actb k j = function j of level k is active.  First the matrix identity
+   represent_fine(truncate=False) * thb_to_hb = represent_fine(truncate=True), then the evaluation:
+   level-wise evaluation of THB coefficients (coeffs_to_levelwise_funcs with truncate=True) equals the
+   finest-level function with coefficients represent_fine(truncate=True) * u. *)
+Theorem thb_to_hb_represent_fine : forall n P (actb : nat -> nat -> bool) T u J, (J < n T)%nat ->
+  fine_coeff n P noZ T (t2h n P actb T u) J = fine_coeff n P actb T u J.
+Proof. exact thb_coeffs_l. Qed.
+Print Assumptions thb_to_hb_represent_fine.
+
+Theorem levelwise_eval_eq_fine_thb : forall (X : Type) n (B : nat -> nat -> X -> Qc) P Lmax (actb : nat -> nat -> bool),
+  two_scale_hyp n B P Lmax ->
+  forall T u x, (T <= Lmax)%nat ->
+    levelwise X n B T (t2h n P actb T u) x = bigsum (n T) (fun J => fine_coeff n P actb T u J * B T J x).
+Proof. exact @levelwise_thb_l. Qed.
+Print Assumptions levelwise_eval_eq_fine_thb.
 
 (* virtual_hierarchy_prolongators, HB: every function of virtual level k (the active functions of
    levels <= k and the deactivated ones of level k) is reproduced on virtual level k+1 by its column *)
@@ -194,6 +207,64 @@ Theorem vh_prolongators_hb_composed : forall (X : Type) n (B : nat -> nat -> X -
     lpres dof X (dofsV act deact k) (dofsV act deact (k + m)) (fnHB X B) (fnHB X B) (Phb_chain P act deact k m).
 Proof. exact @vh_hb_chain_l. Qed.
 Print Assumptions vh_prolongators_hb_composed.
+
+(* ---- on REACHABLE HSpace states (coq/C04): for every valid initial mesh and every history of valid
+   refine calls, st = run (hs_init axes disp) ops, with act_of/deact_of = the raveled active/deactivated
+   function sets of st.  `pattern`: the non-zero entries of a prolongator column of a deactivated function
+   lie inside the children pattern function_children of the C04 model (which C04's check ties to the
+   sparsity pattern of the implementation's prolongation matrices on every run).  The children-closed
+   part of index_hyp is then a THEOREM (C04.children_closed), no longer a hypothesis. *)
+Theorem children_closed_reachable : forall axes disp ops,
+  Forall Verif.C04.ProofsMesh.axis_ok axes -> (forall d, disp = Some d -> (1 <= d)%nat) ->
+  P4.ops_valid (M4.hs_init axes disp) ops ->
+  forall (rav : nat -> FinSet.mi -> nat) (n : nat -> nat) (P : nat -> nat -> nat -> Qc),
+  (forall k f j, In f (P4.DF (M4.run (M4.hs_init axes disp) ops) k) -> (j < n (S k))%nat ->
+     P k j (rav k f) <> 0 ->
+     exists g, In g (C4.function_children (M4.run (M4.hs_init axes disp) ops) k [f]) /\ j = rav (S k) g) ->
+  forall k i j, In i (deact_of axes disp ops rav k) -> (j < n (S k))%nat -> P k j i <> 0 ->
+    In j (act_of axes disp ops rav (S k) ++ deact_of axes disp ops rav (S k)).
+Proof. exact children_closed_reachable_l. Qed.
+Print Assumptions children_closed_reachable.
+
+Theorem vh_prolongators_hb_reachable : forall axes disp ops,
+  Forall Verif.C04.ProofsMesh.axis_ok axes -> (forall d, disp = Some d -> (1 <= d)%nat) ->
+  P4.ops_valid (M4.hs_init axes disp) ops ->
+  forall (rav : nat -> FinSet.mi -> nat) (n : nat -> nat) (P : nat -> nat -> nat -> Qc),
+  (forall k f j, In f (P4.DF (M4.run (M4.hs_init axes disp) ops) k) -> (j < n (S k))%nat ->
+     P k j (rav k f) <> 0 ->
+     exists g, In g (C4.function_children (M4.run (M4.hs_init axes disp) ops) k [f]) /\ j = rav (S k) g) ->
+  forall (X : Type) (B : nat -> nat -> X -> Qc) Lmax,
+  two_scale_hyp n B P Lmax ->
+  (forall k, NoDup (act_of axes disp ops rav k ++ deact_of axes disp ops rav k)) ->
+  (forall k j, In j (act_of axes disp ops rav k ++ deact_of axes disp ops rav k) -> (j < n k)%nat) ->
+  forall m k, (k + m <= Lmax)%nat ->
+    lpres dof X (dofsV (act_of axes disp ops rav) (deact_of axes disp ops rav) k)
+          (dofsV (act_of axes disp ops rav) (deact_of axes disp ops rav) (k + m)) (fnHB X B) (fnHB X B)
+          (Phb_chain P (act_of axes disp ops rav) (deact_of axes disp ops rav) k m).
+Proof. exact vh_hb_reachable_l. Qed.
+Print Assumptions vh_prolongators_hb_reachable.
+
+Theorem prolongate_to_replaced_reachable : forall axes disp ops,
+  Forall Verif.C04.ProofsMesh.axis_ok axes -> (forall d, disp = Some d -> (1 <= d)%nat) ->
+  P4.ops_valid (M4.hs_init axes disp) ops ->
+  forall (rav : nat -> FinSet.mi -> nat) (n : nat -> nat) (P : nat -> nat -> nat -> Qc),
+  (forall k f j, In f (P4.DF (M4.run (M4.hs_init axes disp) ops) k) -> (j < n (S k))%nat ->
+     P k j (rav k f) <> 0 ->
+     exists g, In g (C4.function_children (M4.run (M4.hs_init axes disp) ops) k [f]) /\ j = rav (S k) g) ->
+  forall (X : Type) (B : nat -> nat -> X -> Qc) Lmax,
+  two_scale_hyp n B P Lmax ->
+  (forall k, NoDup (act_of axes disp ops rav k ++ deact_of axes disp ops rav k)) ->
+  (forall k j, In j (act_of axes disp ops rav k ++ deact_of axes disp ops rav k) -> (j < n k)%nat) ->
+  forall l i m x, (l + m <= Lmax)%nat -> In i (deact_of axes disp ops rav l) ->
+    deact_of axes disp ops rav (l + m)%nat = [] ->
+    B l i x = expand_act X B P (act_of axes disp ops rav) (deact_of axes disp ops rav) m l
+                         (fun s => if Nat.eqb s i then 1 else 0) x.
+Proof. exact prolongate_to_replaced_reachable_l. Qed.
+Print Assumptions prolongate_to_replaced_reachable.
+(* NOT PROVED in the reachable versions: `pattern` itself for the Kronecker products of prolongation_spec
+   (the link between a Qc knot vector and the integer axis of C04: non-zero entries of the 1-D knot
+   insertion product lie in children_1d), and that the raveling is injective and in range on the
+   active/deactivated sets (the two remaining hypotheses). *)
 
 (* THB, REPAIRED composition (fixes/C05-thb-virtual-hierarchy.patch): H2T(k+1) * P_hb[k] * T2H(k)
    transfers the THB functions, where a THB function is the HB functions combined with a column of
@@ -219,8 +290,8 @@ Print Assumptions vh_prolongators_thb_repaired.
 (* NOT PROVED for the repaired variant: that the product of truncate_one_level(j, inverse=True,
    virtual=(j = k)) matrices is the inverse of the product of the truncate_one_level(j, virtual=...)
    matrices (each factor is I -+ A with A*A = 0), i.e. the hypothesis on T2/H2 above, and that the
-   functions so defined are the truncated functions of represent_fine(truncate=True) beyond two
-   levels (levelwise_eval_eq_fine_thb_partial covers two). *)
+   functions so defined are the truncated functions of represent_fine(truncate=True) ON THE VIRTUAL
+   levels (for the space itself this is now thb_to_hb_represent_fine, any number of levels). *)
 
 (* THB, the code as it is (truncate_one_level(k, inverse=True) @ P_hb[k]): refuted on three levels.
    1-D, p = 2, knots 0,0,0,1,2,3,4,4,4, cells [0,2) refined, then [0,1): the truncated level-0
